@@ -71,3 +71,6 @@ META["C13"] = _m("mock", "DESIGN.md section 4, C13", "property-based testing: ge
 
 META["C15"] = _m("mock", "DESIGN.md section 4, C15", "grammar-based property testing: generated request sequences x handler programs x fragmentations; differential against net/http (ReadResponse parse-back, request ground truth)",
     "Randomised end-to-end testing of the HTTP server codec through a real channel and read loop with net/http as the standard parser; search, not proof.", "Trusts net/http's parsers and the mock transport's stream recording.")
+
+META["C12"] = _m("core", "DESIGN.md section 4, C12", "generated concurrent API programs (enumerated operation pairs + random batches, generated pacing) executed under the Go race detector; reports parsed and normalised into signatures",
+    "Dynamic race detection over generated programs: judges only executed, unordered access pairs; pacing and repetition raise the chance that a racy pair is not masked by incidental ordering; search, not proof.", "Trusts the Go race detector and the in-process stderr capture; a racy pair separated by incidental happens-before edges in every run stays invisible.")
